@@ -99,3 +99,17 @@ def register(benign):
         ("_rpc/_client.py", "    sock = socket.create_connection(\n", "    sock = _create_connection(\n"),
         ("_rpc/_client.py", "    conn_future = asyncio.open_connection(server, port=port)", "    conn_future = _open_connection(server, port=port)"),
     ], "create_connection / open_connection imported by name when the module is loaded")
+    benign("BN-spnego-bound-at-import", ["C13", "C14", "C15", "C16", "C17", "C18", "C10", "C01"], [
+        ("_rpc/_auth.py", "import spnego\nimport spnego.iov\n", "import spnego\nimport spnego.iov\nfrom spnego import client as _spnego_client\n"),
+        ("_rpc/_auth.py", "        self.ctx = spnego.client(", "        self.ctx = _spnego_client("),
+    ], "spnego.client imported by name when the module is loaded")
+    benign("BN-early-bound-misc", ["C03", "C19", "C20", "C17", "C01", "C09"], [
+        ("_gkdi.py", "import os\n", "import os\nfrom os import urandom as _urandom\n"),
+        ("_gkdi.py", "            key_info = os.urandom(32)", "            key_info = _urandom(32)"),
+        ("_gkdi.py", "            private_key = os.urandom(math.ceil(self.private_key_length / 8))", "            private_key = _urandom(math.ceil(self.private_key_length / 8))"),
+        ("_dns.py", "import dns.resolver\n", "import dns.resolver\nfrom dns.asyncresolver import resolve as _aresolve\nfrom dns.resolver import resolve as _resolve\n"),
+        ("_dns.py", "    answers = dns.resolver.resolve(record, \"SRV\", search=True)", "    answers = _resolve(record, \"SRV\", search=True)"),
+        ("_dns.py", "    answers = await dns.asyncresolver.resolve(record, \"SRV\", search=True)", "    answers = await _aresolve(record, \"SRV\", search=True)"),
+        ("_client.py", "import time\n", "import time\nfrom time import time_ns as _time_ns\n"),
+        ("_client.py", "    current_time = (time.time_ns() // 100) + _EPOCH_FILETIME", "    current_time = (_time_ns() // 100) + _EPOCH_FILETIME"),
+    ], "os.urandom, the dnspython resolve helpers and time.time_ns bound by name at import time")
